@@ -7192,3 +7192,162 @@ func extraC19StreamErrorExcuse(c *Ctx, r *Report) {
 		Old: "	if streamErr != nil && !errors.Is(streamErr, context.Canceled) {", New: "	if streamErr != nil && !errors.Is(streamErr, context.Canceled) && !errors.Is(streamErr, syscall.ECONNRESET) {",
 		Edits: []Edit{{"internal/adapter/proxy/olla/service_retry.go", "	\"net/http\"\n", "	\"net/http\"\n	\"syscall\"\n"}}})
 }
+
+// ---------- C20-R14: an index taken from a map is used only when the key was found ----------
+// ---------- C20-R15: the pointer of a (ptr, ok) answer is dereferenced only under ok ----------
+func init() {
+	registerExtra("C20", extraC20LookupResultsGuarded)
+}
+
+func extraC20LookupResultsGuarded(c *Ctx, r *Report) {
+	r.Rule("C20-R14", "in the code that consumes backend-produced data, a slice index that comes out of a map lookup is used only where the lookup is known to have hit (comma-ok result tested true) or the index was compared with len(): a missing key yields index 0, and a stream that never opened a block — tool-call deltas without id or name — makes that an index into an empty slice", 1)
+	r.Rule("C20-R15", "in the repo's non-test code, the pointer half of a (pointer, bool) answer of a repo function is dereferenced only at instructions dominated by the bool being true (or the pointer being compared with nil): a catalogue entry that has already been removed — two listing entries that unify to one model record the same id twice — must end the operation, not the process (the unification goroutine has no recover)", 10)
+	okFact := func(b *ssa.BasicBlock, okV ssa.Value, ptr ssa.Value) bool {
+		for _, cf := range normFacts(condFacts(b)) {
+			if okV != nil && cf.Cond == okV && cf.True {
+				return true
+			}
+			if bo, isB := cf.Cond.(*ssa.BinOp); isB && ptr != nil && isNilConst(bo.Y) && bo.X == ptr {
+				if (bo.Op == token.NEQ && cf.True) || (bo.Op == token.EQL && !cf.True) {
+					return true
+				}
+			}
+		}
+		return false
+	}
+	n14, n15 := 0, 0
+	for _, f := range c.Funcs {
+		if !c.inRepo(f) {
+			continue
+		}
+		eachInstr(f, func(in ssa.Instruction) {
+			// R14
+			if inConsumerScope(f) {
+				var idx, coll ssa.Value
+				switch x := in.(type) {
+				case *ssa.IndexAddr:
+					idx, coll = x.Index, x.X
+				case *ssa.Index:
+					idx, coll = x.Index, x.X
+				}
+				if idx != nil {
+					if _, isSlice := coll.Type().Underlying().(*types.Slice); isSlice {
+						var lk *ssa.Lookup
+						var okV ssa.Value
+						switch y := idx.(type) {
+						case *ssa.Lookup:
+							if _, isMap := y.X.Type().Underlying().(*types.Map); isMap && !y.CommaOk {
+								lk = y
+							}
+						case *ssa.Extract:
+							if l2, ok := y.Tuple.(*ssa.Lookup); ok && l2.CommaOk && y.Index == 0 {
+								lk = l2
+								for _, ref := range *l2.Referrers() {
+									if e2, ok := ref.(*ssa.Extract); ok && e2.Index == 1 {
+										okV = e2
+									}
+								}
+							}
+						}
+						if lk != nil {
+							n14++
+							key := fmt.Sprintf("%s:index-from-map#%d", fname(f), n14)
+							if okFact(in.Block(), okV, nil) && okV != nil || boundsGuarded(idx, coll, in.Block()) {
+								r.OK("C20-R14", key, in.Pos(), "the index is used only after the lookup hit (or after a bounds test)")
+							} else {
+								r.Bad("C20-R14", key, in.Pos(), "a slice is indexed with the result of a map lookup that may have missed: the zero index hits an empty slice when the stream never opened a block, and the translation panics")
+							}
+						}
+					}
+				}
+			}
+			// R15
+			call, ok := in.(*ssa.Call)
+			if !ok {
+				return
+			}
+			sig := call.Call.Signature()
+			if sig.Results().Len() != 2 || sig.Results().At(1).Type().String() != "bool" {
+				return
+			}
+			if _, isPtr := sig.Results().At(0).Type().Underlying().(*types.Pointer); !isPtr {
+				return
+			}
+			sc := call.Call.StaticCallee()
+			if sc != nil && !c.inRepo(sc) {
+				// library containers (xsync.Map.Load, sync.Map) answer (nil, false) on a miss just the same
+				// (a get-or-create — LoadOrCompute, LoadOrStore — always answers with a value: its bool says "was already there")
+				if ci := describeCall(&call.Call); !strings.Contains(ci.Pkg, "xsync") || (ci.Name != "Load" && ci.Name != "LoadAndDelete") {
+					return
+				}
+			}
+			var ptr, okV ssa.Value
+			for _, ref := range *call.Referrers() {
+				if ex, ok := ref.(*ssa.Extract); ok {
+					if ex.Index == 0 {
+						ptr = ex
+					} else {
+						okV = ex
+					}
+				}
+			}
+			if ptr == nil || ptr.Referrers() == nil {
+				return
+			}
+			for _, ref := range *ptr.Referrers() {
+				deref := false
+				switch x := ref.(type) {
+				case *ssa.FieldAddr:
+					deref = x.X == ptr
+				case *ssa.UnOp:
+					deref = x.Op == token.MUL && x.X == ptr
+				}
+				if !deref {
+					continue
+				}
+				n15++
+				key := fmt.Sprintf("%s:deref-of-%s", fname(f), describeCall(&call.Call).Name)
+				if okFact(ref.Block(), okV, ptr) {
+					r.Triv("C20-R15", key, ref.Pos(), "dereferenced under the found / non-nil fact")
+				} else {
+					r.Bad("C20-R15", key, ref.Pos(), "the pointer of a (pointer, found) answer is dereferenced without the found flag (or a nil test) having been checked: a miss is a nil-pointer panic")
+				}
+			}
+		})
+	}
+	if n14 == 0 {
+		r.Undecided("C20-R14", "map-derived-indices", token.NoPos, "no slice index derived from a map lookup in the consumer code")
+	}
+	if n15 == 0 {
+		r.Undecided("C20-R15", "pointer-ok-answers", token.NoPos, "no dereference of a (pointer, bool) answer found")
+	}
+	addMutants(
+		Mutant{Prop: "C20", Name: "block-index-from-missed-lookup", File: "internal/adapter/translator/anthropic/streaming.go", Rule: "C20-R14",
+			Old: "				if blockIndex, found := state.toolIndexToBlock[toolIndex]; found {", New: "				if blockIndex, found := state.toolIndexToBlock[toolIndex]; found || len(state.toolIndexToBlock) == 0 {"},
+		Mutant{Prop: "C20", Name: "catalogue-miss-dereferenced", File: "internal/adapter/unifier/default_unifier.go", Rule: "C20-R15",
+			Old: "	model, exists := u.store.GetModel(modelID)\n	if !exists {\n		return\n	}\n\n	// GetModel returns a deep copy", New: "	model, _ := u.store.GetModel(modelID)\n\n	// GetModel returns a deep copy"})
+}
+
+// ---------- wave-5 own-property aliases ----------
+func init() {
+	// the routing decision the headers report must be the one that narrowed the provider's candidates: a shortcut that
+	// replaces the provider-filtered list is visible as a decision that did not produce the list (C11)
+	registerExtra("C11", func(c *Ctx, r *Report) {
+		r.WithAlias(map[string]string{"C09-R3": "C11-R11"}, func() { checkC09(c, r) })
+	})
+	// a wrapper that hides Flush makes the translated stream abort after message_start (every event's flush fails) (C13)
+	registerExtra("C13", func(c *Ctx, r *Report) {
+		r.WithAlias(map[string]string{"C18-R1": "C13-R11", "C18-R14": "C13-R12"}, func() { checkC18(c, r); extraC18FlushNestingClosed(c, r) })
+	})
+	// the buffered translation must be handed the JSON value types the translator reads (json.Unmarshal: numbers are
+	// float64) — a streaming decoder with other settings makes usage silently 0/0 while the streamed path is right (C13)
+	registerExtra("C13", func(c *Ctx, r *Report) {
+		r.WithAlias(map[string]string{"C05-R7": "C13-R13"}, func() { extraC05Decoder(c, r) })
+	})
+	// on a failover the replayed body is the one that was dispatched (the translated body on the translation path):
+	// the retry handler replays its own copy, taken when the first attempt was made (C14)
+	registerExtra("C14", func(c *Ctx, r *Report) { extraBodyPreserver(c, r, "C14-R12") })
+	// the last-chunk ring must not alias the stream buffer it is written from: later writes shift bytes inside the
+	// buffer whose content is about to be sent (C18)
+	registerExtra("C18", func(c *Ctx, r *Report) { writersDoNotRetain(c, r, "C18-R15") })
+}
